@@ -208,6 +208,12 @@ def family_shards(tier):
         n = k + 1
         fixed = {f"{i}-{j}": (1 if i == 0 else 0) for i in range(n) for j in range(i + 1, n)}
         out.append({"n": n, "multi": [0] * n, "hosts": hosts, "K": K, "fixed": fixed, "family": f"star of {k}"})
+    # fan-in with a sibling: t3 needs t0 and t1, t2 needs t0 only (t0's output travels to another host for one consumer while
+    # the other input of t3 is still being computed: a transfer notice must not count as the arrival of a missing input)
+    for hosts, K in ([("2x1", 3)] if tier == "quick" else [("2x1", 7), ("2x2", 6), ("3x1", 6), ("1x2", 5)]):
+        fixed = {f"{i}-{j}": 0 for i in range(4) for j in range(i + 1, 4)}
+        fixed.update({"0-2": 1, "0-3": 1, "1-3": 1})
+        out.append({"n": 4, "multi": [0] * 4, "hosts": hosts, "K": K, "fixed": fixed, "family": "fan-in with sibling"})
     for (c, L) in fams:
         n = c * L
         fixed = {}
@@ -439,3 +445,84 @@ class PlanStep(Harness):
 
 
 register(PlanStep())
+
+
+class NotifyStep(Harness):
+    """controller.notify on publication notices in any order and multiplicity: a task becomes computable exactly when each of
+    its inputs has been announced at least once -- a second notice about the same dataset (the completion of a transfer to
+    another host) is not the arrival of another input."""
+
+    name = "notify-step"
+    engine = "E1-crosshair"
+    properties = ("C02", "C03")
+    rule = "one path = a sequence of <=5 publication / transfer-completion notices for the inputs of a fan-in task, with batch boundaries; non-trivial = a transfer notice precedes the last missing input"
+    assumptions = ["state built by the real initialize / assign / plan for two producers and one consumer of both on two hosts", "a transfer completion is announced only after the original publication"]
+    outside = []
+
+    def shards(self, tier):
+        return [{"multi": m, "len": n} for m in (0, 1) for n in range(1, 5 if tier == "quick" else 7)]
+
+    def budget(self, tier):
+        return 60.0
+
+    def bounds(self, tier):
+        return {"notices": "1..4" if tier == "quick" else "1..6", "inputs_of_the_consumer": "2 (3 when the first producer has two outputs)"}
+
+    def functions(self):
+        return [c_notify.notify, c_notify.consider_computable, s_api.initialize, s_api.assign, s_api.plan]
+
+    def body(self, ch, params):
+        from cascade.controller.report import Reporter
+        from cascade.executor.msg import DatasetPublished
+
+        with ch.untraced():
+            FALSY["on"] = False
+            multi = [params["multi"], 0, 0]
+            # t0, t1 -> t2 (t2 reads every output of t0 and the output of t1)
+            fixed = {(0, 1): 0, (0, 2): (len(pair_options(2)) - 1) if multi[0] else 1, (1, 2): 1}
+            job, spec = build_job(ch, 3, multi, False, fixed, with_ext=False)
+            sim = sim_cluster.SimCluster(job, HOST_SHAPES["2x1"], ch, 0, set(), ch.untraced)
+            state = s_api.initialize(sim.env, s_graph.precompute(job), set())
+            assignments = list(s_api.assign(state, job, sim.env))
+            state = s_api.plan(state, assignments)
+            where = {t: a.worker for a in assignments for t in a.tasks}
+            if set(where) != {"t0", "t1"}:
+                raise HarnessError(f"first round assigned {where}")
+            inputs = [DatasetId("t0", o) for o in out_names(2 if multi[0] else 1)] + [DatasetId("t1", "0")]
+            rep = Reporter(None)
+            published, seen_xfer_early = set(), False
+            log = []
+            comp = state.components[state.ts2component["t2"]]
+            idx = 0
+            for i in range(params["len"]):
+                opts = [("pub", d) for d in inputs if d not in published] + [("xfer", d) for d in inputs if d in published]
+                # outputs of one generator are published in declaration order
+                opts = [o for o in opts if not (o[0] == "pub" and o[1].task == "t0" and any(d.task == "t0" and d not in published and inputs.index(d) < inputs.index(o[1]) for d in inputs))]
+                kind, d = ch.choose(opts, f"ev{i}")
+                if kind == "pub":
+                    ev = DatasetPublished(origin=where[d.task], ds=d, transmit_idx=None)
+                    published.add(d)
+                else:
+                    other = [h for h in sim.stores if h != where[d.task].host][0]
+                    ev = DatasetPublished(origin=other, ds=d, transmit_idx=idx)
+                    idx += 1
+                    if len(published) < len(inputs):
+                        seen_xfer_early = True
+                log.append(f"{kind} {d!r}")
+                try:
+                    state = c_notify.notify(state, job, [ev], rep)
+                except Exception as e:
+                    raise Violation(f"notify-raised-{type(e).__name__}", f"{log}: {e}")
+                want = len(published) == len(inputs)
+                got = "t2" in comp.computable
+                if got and not want:
+                    raise Violation("task-computable-before-its-inputs-exist", f"after {log}: t2 is computable but only {sorted(map(repr, published))} have been produced")
+                if want and not got:
+                    raise Violation("task-not-computable-although-inputs-exist", f"after {log}")
+                if state.computable != (1 if want else 0):
+                    raise Violation("computable-counter-wrong", f"after {log}: {state.computable}")
+            ch.note("notices", log)
+            ch.note("nontrivial", seen_xfer_early)
+
+
+register(NotifyStep())
